@@ -122,6 +122,7 @@ WhereOK == \A h \in Handles : (where[h] = "A" <=> \E i \in 1..Len(a) : a[i] = h)
 \* observation: everything is visible through the public API (the harness maps node pointers to handles)
 Rev(s) == [i \in 1..Len(s) |-> s[Len(s) + 1 - i]]
 O == [len |-> Len(a), fwd |-> a, bwd |-> Rev(a), vals |-> [i \in 1..Len(a) |-> val[a[i]]],
+      all |-> [i \in 1..Len(a) |-> val[a[i]]],      \* All(): the iterator value was obtained when the list was created and is ranged now
       other |-> b, out |-> [h \in Handles |-> IF where[h] \in {"free", "out"} THEN 1 ELSE 0],
       std |-> [i \in 1..Len(a) |-> val[a[i]]]]
 View == <<a, b, where, val>>
